@@ -202,6 +202,9 @@ type c13OpDef struct {
 	vi int
 }
 
+// c13Self: whether the current BFS job has Combine(i,i) in its alphabet (jobs run one at a time).
+var c13Self bool
+
 func c13Ops(A int) []c13OpDef {
 	var ops []c13OpDef
 	for i := 0; i < A; i++ {
@@ -211,8 +214,11 @@ func c13Ops(A int) []c13OpDef {
 	}
 	for i := 0; i < A; i++ {
 		for j := 0; j < A; j++ {
-			// i == j included since round 10: an accumulator combined with itself
-			ops = append(ops, c13OpDef{C13Op{Op: "combine", I: i, J: j}, -1})
+			// i == j (an accumulator combined with itself, round 10) only in jobs that ask for
+			// it: doubling defeats state merging, so the deep thorough jobs keep i != j
+			if i != j || c13Self {
+				ops = append(ops, c13OpDef{C13Op{Op: "combine", I: i, J: j}, -1})
+			}
 		}
 	}
 	return ops
@@ -432,12 +438,13 @@ func c13Run(c *core.Ctx) {
 	// --- BFS jobs -----------------------------------------------------------
 	type job struct {
 		A, depth int
+		self     bool // Combine(i,i) in the alphabet
 	}
 	var jobs []job
 	if c.Thorough() {
-		jobs = []job{{4, 7}, {3, 7}, {2, 9}, {5, 5}, {6, 4}}
+		jobs = []job{{4, 7, false}, {3, 7, false}, {2, 9, false}, {5, 5, false}, {6, 4, false}, {3, 6, true}, {4, 5, true}, {2, 7, true}}
 	} else {
-		jobs = []job{{3, 6}, {4, 5}, {2, 7}}
+		jobs = []job{{3, 6, true}, {4, 5, true}, {2, 7, true}}
 	}
 	for _, j := range jobs {
 		// Each BFS job runs whole in the one shard that owns it, so its state
@@ -445,8 +452,9 @@ func c13Run(c *core.Ctx) {
 		if !c.Mine() {
 			continue
 		}
+		c13Self = j.self
 		r.State(c13BFS(r, j.A, j.depth, [][]uint8{{}}))
-		r.Bound(fmt.Sprintf("bfs_A%d", j.A), fmt.Sprintf("depth<=%d", j.depth))
+		r.Bound(fmt.Sprintf("bfs_A%d_self%v", j.A, j.self), fmt.Sprintf("depth<=%d", j.depth))
 	}
 	// --- every split of every stream, every merge order ---------------------
 	maxL, maxK := 4, 3
